@@ -1190,9 +1190,13 @@ class CodeGenerator(StructuredCodeGenerator):
         sym_table = self.sym_kind_table.per_phase_table.get(
                 self.current_function, {})
 
+        # Release everything that is still held: besides variables that are
+        # never used, a variable may have skipped the release at its last use
+        # (that statement sat in a conditional block that was not entered, or
+        # FailStep/SwitchPhase jumped to the exit label before it). Releasing
+        # an unassociated variable is a no-op.
         for identifier, sym_kind in sorted(sym_table.items()):
-            if (identifier, self.current_function) not in self.last_used_stmt_table:
-                self.emit_variable_deinit(identifier, sym_kind)
+            self.emit_variable_deinit(identifier, sym_kind)
 
         # }}}
 
